@@ -1614,6 +1614,9 @@ func (x *Exec) specBuiltin(st *State, env *Env, name string, args []Expr) (Value
 			return has, true
 		}
 		return val, true
+	case "merged":
+		// identity; forces single-valued (path-merged) evaluation of a call in a let
+		return x.eval(st, env, args[0]), true
 	case "isnil":
 		v := x.eval(st, env, args[0])
 		return x.isNil(v), true
